@@ -162,6 +162,17 @@ def gen_unicode():
            'From Coq Require Import List NArith.', 'Import ListNotations.', 'Open Scope N_scope.', '']
     out.append('Definition uni_reachable : list N := [' + '; '.join(map(str, cps)) + '].')
     out.append('Definition uni_space : list N := [' + '; '.join(str(c) for c in cps if chr(c).isspace()) + '].')
+    # the characters int() strips as whitespace are NOT str.isspace(): CPython maps only non-ASCII Unicode spaces to ' ' and
+    # then skips C-locale ASCII whitespace, so U+001C..U+001F (isspace() is True) make int() fail.  Taken from int() itself.
+    def int_strips(c):
+        ch = chr(c)
+        if ch in '+-_' or unicodedata.decimal(ch, None) is not None:
+            return False
+        try:
+            return int(ch + '7') == 7 and int('7' + ch) == 7
+        except ValueError:
+            return False
+    out.append('Definition uni_intspace : list N := [' + '; '.join(str(c) for c in cps if int_strips(c)) + '].')
     dec = [(c, unicodedata.decimal(chr(c), None)) for c in cps]
     out.append('Definition uni_decimal : list (N * N) := [' +
                '; '.join(f'({c}, {d})' for c, d in dec if d is not None) + '].')
